@@ -982,7 +982,7 @@ pub fn run(tier: &str, seed: u64, rep: &mut Report) {
     }
 
     // ---- generated
-    let scale = if tier == "thorough" { 60 } else { 4 };
+    let scale = if tier == "thorough" { 60 } else { 12 };
     let tin_of = |rng: &mut Rng| match rng.below(4) {
         0 => 0,
         1 => rng.below(1 << 40),
